@@ -110,11 +110,11 @@ def cloneVariant : Vars → Nat → Nat → Nat → Mem → Mem
   | .cons v .nil, _, src, dst, m =>
     match collectLayouts v with
     | none => m
-    | some _ => cloneFields v variantStart src dst m
+    | some _ => cloneFields v variantStartClone src dst m
   | .cons v (.cons v' vs), 0, src, dst, m =>
     match collectLayouts v with
     | none => m
-    | some _ => cloneFields v variantStart src dst m
+    | some _ => cloneFields v variantStartClone src dst m
   | .cons _ (.cons v' vs), k + 1, src, dst, m => cloneVariant (.cons v' vs) k src dst m
 end
 
@@ -148,7 +148,7 @@ def eqVariant (le : LeafKind → List Nat → List Nat → Bool) (m : Mem) : Var
   | .cons v _, 0, a, b =>
     match collectLayouts v with
     | none => true
-    | some _ => eqFields le m v variantStart a b
+    | some _ => eqFields le m v variantStartEq a b
   | .cons _ vs, k + 1, a, b => eqVariant le m vs k a b
 end
 
